@@ -188,9 +188,9 @@ func runC05(c *Ctx, r *Run) {
 					root = root.Parent()
 				}
 				found[c.FuncName(root)] = c.Pos(pn.Pos())
-			if _, has := foundFn[c.FuncName(root)]; !has || uncontainedFirst(fn, foundFn[c.FuncName(root)]) {
-				foundFn[c.FuncName(root)] = fn
-			}
+				if _, has := foundFn[c.FuncName(root)]; !has || uncontainedFirst(fn, foundFn[c.FuncName(root)]) {
+					foundFn[c.FuncName(root)] = fn
+				}
 			})
 		}
 	}
